@@ -288,6 +288,8 @@ class PriceLoop(FunctionContract):
             g["simulated"] = list(ints(path, "simulated", n))
             g["levels_run"] = []
             g["returned_inside"] = False
+            g["accepted"] = None          # the verdict must come from a stopping test evaluated in THIS pass
+            g["last_Ns"] = None
 
         def inv(L, g):
             Lv = L.L
@@ -414,6 +416,8 @@ class PriceLoop(FunctionContract):
         out["reported-N-is-the-number-of-filled-rows-and-of-simulated-samples"] = And(*[And(compare(rep[l], g["filled"][l], "=="), compare(rep[l], g["simulated"][l], "==")) for l in range(n)]) if n <= len(g["filled"]) else False
         out["never-simulates-a-level-above-the-maximum"] = all(l <= g["Lmax"] for l in g["levels_run"]) and n - 1 <= g["Lmax"]
         ns, acc = g.get("last_Ns"), g.get("accepted")
+        if ns is not None and acc is None and len(ns) == n:
+            acc = False                   # no stopping test was evaluated on the estimates of the pass that returns
         if ns is not None and acc is not None and len(ns) == n:
             need = And(*[compare(100 * (ns[l] - rep[l]), rep[l], "<=") for l in range(n)])
             some_need = Or(*[compare(ns[l], rep[l], ">") for l in range(n)])
@@ -427,7 +431,7 @@ class PriceLoop(FunctionContract):
         # native oracles for the adaptive loop: the scripted-history batteries of C05 (sample provenance) and C06 (exits, 1 % rule)
         from contracts import c06
         v = list(ScriptedEngine().run("quick", 0)["violations"]) + [x for x in c06.Trajectories().run("quick", 0)["violations"]]
-        known = ("returns-only-on-acceptance",)       # C06's recorded finding, not a confirmation of anything else
+        known = ("returns-only-on-acceptance-or-at-the-maximum-level[added-level-needs-no-sample]",)       # C06's recorded finding
         v = [x for x in v if not any(k in x["obligation"] for k in known)]
         return (bool(v), {"scripted_history_violations": [{"obligation": x["obligation"], "witness": x.get("witness")} for x in v][:3]})
 
